@@ -22,7 +22,7 @@ RULE = ('one run = one CONNECT to a drawn host (DNS names, IPv4 and bracketed IP
 PROBES = ['second_host', 'trusted_origin', 'selfsigned_origin', 'wrongname_origin', 'expired_origin', 'insecure_switch', 'opt_out',
           'ip_literal_host', 'ipv6_literal_host', 'cold_cache', 'warm_cache', 'second_request', 'request_body',
           'client_verified_leaf', 'bad_origin_refused', 'partial_tls_write', 'want_write_retry', 'large_response', 'long_host_name', 'odd_subject_origin',
-          'openssl_timeout', 'failed_generation_closed_tunnel']
+          'openssl_timeout', 'failed_generation_closed_tunnel', 'retry_same_host', 'retry_after_failed_generation_served']
 COMPONENTS = {
     'real': ['proxy/http/proxy/server.py (intercept, wrap_server, wrap_client, certificate generation)',
              'proxy/core/connection/server.py (wrap)', 'proxy/core/connection/client.py (wrap)', 'proxy/common/pki.py + the '
@@ -151,8 +151,13 @@ def run_one(tape: Any, cfg: Dict[str, Any], forbid: FrozenSet[str] = frozenset()
         from ..mp import SimLock
         from proxy.http.proxy.server import HttpProxyPlugin
         HttpProxyPlugin.lock = SimLock()    # type: ignore[assignment]
+        retry_same = False
+        R2 = b'HTTP/1.1 200 OK\r\nContent-Length: 6\r\n\r\nsecond'
         if second_host and g.feature('openssl_timeout', 0.35):
             _ossl['armed'] = {'needle': os.sep + bare + '.', 'step': tape.draw(3, 'openssl-step')}
+            # the second CONNECT is then either to another host or a retry of the same one (generation resumes from whatever
+            # the interrupted attempt left in the cache directory); the retry needs an origin the proxy accepts
+            retry_same = (situation in ('good', 'oddsubject', 'emptysubject') or insecure) and tape.coin(0.4, 'retry-same')
         if insecure:
             w.probe('insecure_switch')
         if opt_out:
@@ -206,6 +211,9 @@ def run_one(tape: Any, cfg: Dict[str, Any], forbid: FrozenSet[str] = frozenset()
         def origin_script(idx: int) -> List[Any]:
             def responder(peer: Any, info: Dict[str, Any]) -> List[Any]:
                 return [('send', resps[min(peer.served - 1, len(resps) - 1)], 'burst')]
+            if idx >= 1 and retry_same:
+                # the retry after a failed generation (below): a fresh connection from the proxy, one small exchange
+                return [('tls_server', sctx), ('wait_tls',), ('serve', lambda p, info: [('send', R2, 'burst')], 1), ('wait_eof',), ('close',)]
             return [('tls_server', sctx), ('wait_tls',), ('serve', responder, nreq), ('wait_eof',), ('close',)]
         org = Origin(w, ip, 443, origin_script, name='tls-origin', cap_in=caps[0], cap_out=caps[1], read_mode='chunky')
         org.remote.faultable = faults
@@ -233,12 +241,15 @@ def run_one(tape: Any, cfg: Dict[str, Any], forbid: FrozenSet[str] = frozenset()
             host2, ip2, _ = [x for x in HOSTS[:3] if x[0] != host][tape.draw(2, 'host2')]
             if hkind == 'ipv6' and tape.coin(0.7, 'host2-v6'):
                 host2, ip2, _ = HOSTS[5]
-            oc2 = _px[(host2, 'good')]
-            sctx2 = ssl.SSLContext(ssl.PROTOCOL_TLS_SERVER)
-            sctx2.load_cert_chain(oc2['cert'], oc2['key'])
-            R2 = b'HTTP/1.1 200 OK\r\nContent-Length: 6\r\n\r\nsecond'
-            Origin(w, ip2, 443, lambda i: [('tls_server', sctx2), ('wait_tls',), ('serve', lambda p, info: [('send', R2, 'burst')], 1),
-                                           ('wait_eof',), ('close',)], name='tls-origin2')
+            if retry_same:
+                w.probe('retry_same_host')
+                host2, ip2 = host, ip
+            else:
+                oc2 = _px[(host2, 'good')]
+                sctx2 = ssl.SSLContext(ssl.PROTOCOL_TLS_SERVER)
+                sctx2.load_cert_chain(oc2['cert'], oc2['key'])
+                Origin(w, ip2, 443, lambda i: [('tls_server', sctx2), ('wait_tls',), ('serve', lambda p, info: [('send', R2, 'burst')], 1),
+                                               ('wait_eof',), ('close',)], name='tls-origin2')
             cctx2 = ssl.create_default_context(cafile=_px['ca_cert'])
             hp2 = host2.encode() + b':443'
             cl2 = Peer(w, 'client2', [('sleep', 1.0), ('connect',),
@@ -334,6 +345,8 @@ def run_one(tape: Any, cfg: Dict[str, Any], forbid: FrozenSet[str] = frozenset()
                        'client could not complete TLS: %s %s' % (host2, host, t2 and t2.error, t2 and t2.error_detail))
             elif not bytes(cl2.rx).endswith(b'second'):
                 w.fail('response_truncated_inside_tls', 'second_host', 'second CONNECT: client got %r' % bytes(cl2.rx)[:60])
+            elif retry_same and gen_failed:
+                w.probe('retry_after_failed_generation_served')
         if w.stats.get('short_write', 0) or w.stats.get('fault:short', 0):
             w.probe('partial_tls_write')
         if w.stats.get('eagain_send', 0) or w.stats.get('fault:eagain', 0):
